@@ -46,6 +46,7 @@ type Link struct {
 	BytesPerMs int                    // 0 = unlimited
 	LonePm     int                    // with SegPm: per mille of cut writes in which one byte from the middle arrives in a read of its own
 	LoneByte   int                    // with LonePm: prefer this byte value (-1: any)
+	ReturnLag  time.Duration          // the writer gets its call back this long after the bytes were queued (a slow pty or socket write: the other side may have the bytes, and answer, before Write returns)
 	PipeCap    int                    // with Serial: bytes that may wait in front of the line before the writer blocks (0: unbounded)
 	Blocked    int                    // writes that had to wait for room in the pipe
 	Serial     bool                   // with BytesPerMs: writes queue up behind each other (a line of that capacity) instead of each being delayed by its own size only
@@ -121,6 +122,14 @@ func (l *Link) signalLocked() {
 }
 
 func (l *Link) Write(p []byte) (int, error) {
+	n, err := l.write(p)
+	if err == nil && l.ReturnLag > 0 && len(p) > 0 {
+		Sleep(l.ReturnLag)
+	}
+	return n, err
+}
+
+func (l *Link) write(p []byte) (int, error) {
 	Yield("lw:" + l.Name)
 	w := l.W
 	// back-pressure: the reader is not draining (a full pipe): the writer blocks until it does
